@@ -110,6 +110,9 @@ type Config struct {
 	UnbondingTime time.Duration
 	// Contracts are pre-installed at genesis (auth base account with sequence 1 + evm code/storage).
 	Contracts []Contract
+	// GenesisTime overrides the package-level GenesisTime for this world when non-zero (block h is at GenesisTime + h hours);
+	// lets a check place block time on either side of the wall clock.
+	GenesisTime time.Time
 }
 
 // Contract is a genesis contract.
@@ -244,7 +247,7 @@ func (w *World) InitChain(appState []byte) (err error) {
 		}
 	}()
 	_, err = w.App.InitChain(&abci.RequestInitChain{
-		Time:            GenesisTime,
+		Time:            w.GenesisTime(),
 		ChainId:         ChainID,
 		ConsensusParams: w.ConsParams,
 		Validators:      []abci.ValidatorUpdate{},
@@ -398,8 +401,19 @@ func (w *World) buildGenesis() (chainapp.GenesisState, error) {
 	return gs, nil
 }
 
-// BlockTime returns the fixed header time of height h.
+// BlockTime returns the fixed header time of height h (for worlds with the default genesis time).
 func BlockTime(h int64) time.Time { return GenesisTime.Add(time.Duration(h) * time.Hour) }
+
+// GenesisTime of this world.
+func (w *World) GenesisTime() time.Time {
+	if !w.Cfg.GenesisTime.IsZero() {
+		return w.Cfg.GenesisTime
+	}
+	return GenesisTime
+}
+
+// BlockTime returns the fixed header time of height h in this world.
+func (w *World) BlockTime(h int64) time.Time { return w.GenesisTime().Add(time.Duration(h) * time.Hour) }
 
 // BlockResult is what one block produced.
 type BlockResult struct {
@@ -424,7 +438,7 @@ type BlockOpt struct {
 // Finalize runs FinalizeBlock for the next height without committing.
 func (w *World) Finalize(txs [][]byte, opt BlockOpt) (br *BlockResult) {
 	h := w.Height + 1
-	t := BlockTime(h)
+	t := w.BlockTime(h)
 	if opt.Time != nil {
 		t = *opt.Time
 	}
@@ -494,7 +508,7 @@ func (w *World) Block(txs [][]byte, opts ...BlockOpt) *BlockResult {
 func (w *World) Ctx() sdk.Context {
 	h := w.Height + 1
 	hh := sha256.Sum256([]byte(fmt.Sprintf("block-hash-%d", h)))
-	header := cmtproto.Header{ChainID: ChainID, Height: h, Time: BlockTime(h), ProposerAddress: w.Validators[0].Cons()}
+	header := cmtproto.Header{ChainID: ChainID, Height: h, Time: w.BlockTime(h), ProposerAddress: w.Validators[0].Cons()}
 	var ms storetypes.MultiStore = w.App.CommitMultiStore().CacheMultiStore()
 	if w.Height == 0 {
 		// nothing is committed yet: the genesis state lives in the finalize-block state created by InitChain
